@@ -1383,7 +1383,7 @@ func init() {
 				// 15 kinds x (positions 0..3 + variadic tail); argument class x kind pairs the table pins down
 				// (nan/inf/huge x narrow integer kinds are don't-cares and cannot be covered)
 				"param_kind_pos": 15 * 5, "argclass_kind": 140, "result_kind_shape": 30, "zero_fill": 15, "variadic_tail_len": 8,
-				"invalid_rejected": 200, "result_typing_rows": 40, "rejected_at_setup": 350, "toomany_parse_errors": n(t, 800, 20000), "error_aborts_checked": n(t, 800, 20000),
+				"invalid_rejected": 200, "result_typing_rows": 40, "override_programs": 64, "rejected_at_setup": 350, "toomany_parse_errors": n(t, 800, 20000), "error_aborts_checked": n(t, 800, 20000),
 				"error_kind_block": len(nat.ErrKinds) * len(c17Blocks), "blocks": len(c17Blocks), "uses": 6, "styles": 3,
 				"args_compared": n(t, 30000, 1500000), "results_compared": n(t, 15000, 500000), "zero_filled_params": n(t, 8000, 300000),
 				"multi_function_maps": n(t, 6000, 300000), "runs_with_context": n(t, 1500, 50000), "value_model_agrees": n(t, 30000, 1000000),
@@ -1391,6 +1391,7 @@ func init() {
 		},
 		Run: func(c *core.Ctx) {
 			c17ResultTyping(c, false)
+			c17Override(c, false)
 			rng := c.Rand("gen")
 			thorough := c.Tier == core.Thorough
 			i := 0
@@ -1445,6 +1446,10 @@ func init() {
 		Replay: func(c *core.Ctx, raw json.RawMessage) {
 			if strings.Contains(string(raw), `"family":"result-typing"`) || strings.Contains(string(raw), `"family": "result-typing"`) {
 				c17ResultTyping(c, true)
+				return
+			}
+			if strings.Contains(string(raw), `"family":"override"`) || strings.Contains(string(raw), `"family": "override"`) {
+				c17Override(c, true)
 				return
 			}
 			var cs c17Case
